@@ -375,7 +375,13 @@ class FormatMachine(MachineBase):
             if isinstance(x, list):
                 return [reorder(i) for i in x]
             return x
-        self.fs.put(path, json.dumps(reorder(doc), indent=pick_indent(rng), ensure_ascii=rng.random() < 0.5))
+        ind, asc = pick_indent(rng), rng.random() < 0.5
+        out = json.dumps(reorder(doc), indent=ind, ensure_ascii=asc)
+        try:
+            out.encode("utf-8")
+        except UnicodeEncodeError:
+            out = json.dumps(reorder(doc), indent=ind, ensure_ascii=True)      # (a lone surrogate has no UTF-8 form: it stays escaped)
+        self.fs.put(path, out)
         d["bytes"] = self.fs.get(path)
         d["lossy"] = True       # the file is no longer the library's own canonical rendering of the content
         CTX.fault("F3.json_keys_reordered")
